@@ -53,3 +53,19 @@ Theorem C08_advance_within_view_keeps_line : forall r n, RInv r -> 0 <= n < zlen
              r_view r' = skipn (Z.to_nat n) (r_view r).
 Proof. exact advance_within_view_keeps_line. Qed.
 Print Assumptions C08_advance_within_view_keeps_line.
+
+(* ---------------- the block quote law itself, on a fragment, for EVERY document of it -------
+   For every document made of plain paragraphs and block quotes of such documents, nested to any
+   depth, in both marker spellings ("> " and ">"): prefixing every line of its CommonMark spelling
+   with "> " (a bare ">" on an empty line) wraps the Convert model's output in one more
+   blockquote element.  About the whole parser model and the renderer model (proofs/SpecQuote*.v,
+   3.3 k lines: an abstract line machine for nested quotes, shown to be followed step by step by
+   the block driver of model/BlockParse.v). *)
+Require Import GM.model.Html GM.model.SpecDoc GM.model.ParseI GM.proofs.SpecParaConform GM.proofs.SpecQuoteConform.
+Theorem C08_quoting_wraps : forall c fuel d o,
+  hardwraps c = false -> qdoc fuel d = true ->
+  ConvertModel c (md_of false false d) = Ok o ->
+  ConvertModel c (quote_lines (md_of false false d)) =
+    Ok (tag [98;108;111;99;107;113;117;111;116;101] ++ nl ++ o ++ ctag [98;108;111;99;107;113;117;111;116;101] ++ nl)%N.
+Proof. exact quoting_wraps. Qed.
+Print Assumptions C08_quoting_wraps.
